@@ -222,11 +222,82 @@ fn check_case(l: &mut Local<'_>, cfg: gen::ModeCfg, spec: &MapSpec, menu: &[Sett
     }
 }
 
+fn check_case_limited(l: &mut Local<'_>, cfg: gen::ModeCfg, spec: &MapSpec, menu: &[Setting]) {
+    let map = spec.decode();
+    let dst = cfg.dst;
+    let mode = gen::game_mode(dst);
+    let ctxs = |extra: String| format!("cfg={cfg:?}\n{extra}\nspec={}\n--- .osu ---\n{}", spec.describe(), spec.text());
+    for s in menu {
+        let d0: Difficulty = s.difficulty(mode);
+        let lazer = s.lazer.unwrap_or(true);
+        let classic = matches!(s.mods, ModSpec::Classic(_));
+        let full = api::difficulty(&d0, &map, dst).expect("convertible");
+        let total = match &full {
+            DifficultyAttributes::Osu(a) => a.n_objects(),
+            DifficultyAttributes::Taiko(a) => a.max_combo,
+            DifficultyAttributes::Catch(a) => a.n_fruits + a.n_droplets,
+            DifficultyAttributes::Mania(a) => a.n_objects,
+        };
+        for n in [0, total / 3, total / 2, total.saturating_sub(1), total] {
+            let d = if n == total { d0.clone() } else { d0.clone().passed_objects(n) };
+            let a = if n == total { full.clone() } else { api::difficulty(&d, &map, dst).expect("convertible") };
+            let st = api::strains(&d, &map, dst).expect("convertible");
+            l.checked(2);
+            let dump = format!("{a:?} {st:?}");
+            if let Some(bad) = find_non_finite(&dump) {
+                l.violation("difficulty_non_finite", || ctxs(format!("setting={s:?} passed_objects={n}/{total}\nnon-finite value `{bad}` in {dump}")));
+                return;
+            }
+            if let Some(bad) = find_negative(&dump) {
+                l.violation("difficulty_negative", || ctxs(format!("setting={s:?} passed_objects={n}/{total}\nnegative value `{bad}` in {dump}")));
+                return;
+            }
+            if a.stars() > 0.0 {
+                l.nontrivial();
+            }
+            for state in states_for(&a, lazer && !classic).into_iter().step_by(7).take(400) {
+                let acc = accuracy_of(&a, &state, lazer, classic);
+                l.checked(1);
+                if !(0.0..=1.0).contains(&acc) {
+                    l.violation("accuracy_range", || ctxs(format!("setting={s:?} passed_objects={n}/{total}\naccuracy {acc} of state {state:?}")));
+                    return;
+                }
+                let mut p = Performance::new(a.clone()).difficulty(d.clone()).state(state.clone());
+                let g = p.generate_state();
+                let r = p.calculate();
+                l.states(1);
+                l.checked(1);
+                let dump = format!("{r:?}");
+                if let Some(bad) = find_non_finite(&dump) {
+                    l.violation("performance_non_finite", || ctxs(format!("setting={s:?} passed_objects={n}/{total}\nstate={state:?}\nnon-finite value `{bad}` in {dump}")));
+                    return;
+                }
+                if let Some(bad) = find_negative(&dump) {
+                    l.violation("performance_negative", || ctxs(format!("setting={s:?} passed_objects={n}/{total}\nstate={state:?}\nnegative value `{bad}` in {dump}")));
+                    return;
+                }
+                if g.total_hits(mode) == 0 && r.pp() != 0.0 {
+                    l.violation("zero_hits_pp", || ctxs(format!("setting={s:?} passed_objects={n}/{total}\nstate={state:?} generated={g:?}\nzero hits but pp={}", r.pp())));
+                    return;
+                }
+            }
+        }
+    }
+}
+
 fn main() {
     let ctx = Ctx::from_env("C09");
     ctx.rule("case = (mode configuration, grammar map incl. degenerate shapes: empty, single object, all spinners, fully stacked, 1 ms gaps, 7 s gaps); per case: settings menu (mods incl. RX/AP/TD/SO/FL/Classic x lazer flag, clock rates {0.5,0.75,1.5,2}, AR/CS/OD/HP all in {0,5,10,11} x with_mods) x every passed_objects prefix x every score state consistent with the prefix counts (all compositions into the mode's hit results; combo in {0,max}; slider end / tick hits in {0,max}); oracle on the Debug dumps: no NaN/inf anywhere in difficulty attributes, strains, performance attributes; every float field except ar/hp >= 0; accuracy() in [0,1]; generated state with zero hits => pp == 0; non-trivial = stars > 0");
 
     let rich = !ctx.quick();
+    // periodic longer maps (12 objects), a reduced settings menu, every prefix, every consistent score state of up to 6 judgements
+    for mu in vh::uni::motif_universes(&MODE_CFGS, 2, ctx.pick(6, 8), false) {
+        let menu: Vec<Setting> = vec![Setting::nm(), Setting::bits(settings::RX | settings::FL), Setting { lazer: Some(false), ..Setting::bits(settings::HR | settings::DT) }, Setting { rate: Some(0.5), ..Setting::bits(settings::EZ | settings::FL) }];
+        ctx.universe(&mu.name, mu.total, |idx, l| {
+            let spec = mu.spec(idx);
+            check_case_limited(l, mu.cfg, &spec, &menu);
+        });
+    }
     for cfg in MODE_CFGS.iter() {
         let kinds = if cfg.src == 3 { vec![Kind::Circle, Kind::Hold(0), Kind::Hold(300)] } else { vec![Kind::Circle, Kind::Slider2, Kind::Spinner(600)] };
         let menu = settings_menu(cfg.dst, rich);
